@@ -124,6 +124,8 @@ type siteFacts struct {
 	Y     val    `json:"y"`
 	TextX string `json:"text_x"`
 	TextY string `json:"text_y"`
+	LineM int    `json:"line_m"` // the whole match ($$): the probe call
+	TextM string `json:"text_m"`
 	Rest  []val  `json:"rest"`
 }
 
@@ -253,7 +255,7 @@ func (g *gen) constFor(kind int) *filt.DExpr {
 func (g *gen) cmpLeaf() *filt.DExpr {
 	kind := g.rng.Intn(4)
 	tok := cmpToks[g.rng.Intn(6)]
-	v := []string{"x", "y"}[g.rng.Intn(2)]
+	v := g.cmpVar(kind)
 	switch r := g.rng.Intn(10); {
 	case r < 5: // var op const
 		if (kind == 1 || kind == 2) && g.rng.Intn(4) == 0 {
@@ -264,9 +266,17 @@ func (g *gen) cmpLeaf() *filt.DExpr {
 		tok = cmpToks[g.rng.Intn(2)]
 		return filt.Bin(tok, g.constFor(kind), operand(kind, v))
 	default: // var op var
-		w := []string{"x", "y"}[g.rng.Intn(2)]
+		w := g.cmpVar(kind)
 		return filt.Bin(tok, operand(kind, v), operand(kind, w))
 	}
+}
+
+// cmpVar: the capture a comparison reads; for Line and Text also the whole match `$$`
+func (g *gen) cmpVar(kind int) string {
+	if (kind == 0 || kind == 3) && g.rng.Intn(5) == 0 {
+		return "$$"
+	}
+	return []string{"x", "y"}[g.rng.Intn(2)]
 }
 
 func (g *gen) leaf(allowPanic bool) *filt.DExpr {
@@ -422,7 +432,7 @@ func (g *gen) namedLeaf() *filt.DExpr {
 	if g.rng.Intn(10) < 6 {
 		kind := g.rng.Intn(4)
 		tok := cmpToks[g.rng.Intn(6)]
-		v := []string{"x", "y"}[g.rng.Intn(2)]
+		v := g.cmpVar(kind)
 		var c *filt.DExpr
 		if kind == 3 {
 			c = filt.RawStr(cmpConstName[kind], "")
@@ -590,7 +600,8 @@ func main() {
 		for _, s := range byJ[j] {
 			x, y := s.Call.Args[0], s.Call.Args[1]
 			f := siteFacts{K: "site", I: s.I, J: j, LineX: t.Fset.Position(x.Pos()).Line, LineY: t.Fset.Position(y.Pos()).Line,
-				X: valOf(t, sizes, x), Y: valOf(t, sizes, y), TextX: filt.Text(t, x), TextY: filt.Text(t, y), Rest: []val{}}
+				X: valOf(t, sizes, x), Y: valOf(t, sizes, y), TextX: filt.Text(t, x), TextY: filt.Text(t, y), Rest: []val{},
+				LineM: t.Fset.Position(s.Call.Pos()).Line, TextM: filt.Text(t, s.Call)}
 			for _, r := range s.Call.Args[2:] {
 				f.Rest = append(f.Rest, valOf(t, sizes, r))
 			}
@@ -657,6 +668,9 @@ func main() {
 		famIndex = f
 		kind := f % 4
 		v := []string{"x", "y"}[rng.Intn(2)]
+		if kind == 3 && f%8 == 7 {
+			v = "$$"
+		}
 		c := g.constFor(kind)
 		if kind == 0 {
 			// a line of this family's own probe column; every third family aims at a capture spanning several lines
@@ -672,10 +686,16 @@ func main() {
 				}
 				delta = rng.Intn(2)
 			}
+			if f%3 != 0 && f%5 == 4 {
+				v = "$$"
+			}
 			fa := factsAt[[2]int{si, f % W}]
 			ln := fa.LineX
 			if v == "y" {
 				ln = fa.LineY
+			}
+			if v == "$$" {
+				ln = fa.LineM
 			}
 			c = filt.Int(int64(ln + delta))
 		}
